@@ -25,6 +25,9 @@ package parser
 //@ pred ParColl(p *Parser) = forall(i, 0, len(p.components), p.components[i] != nil && allocated(p.components[i]) && p.components[i].Block == nil)
 //@      && forall(i, 0, len(p.components), forall(j, 0, len(p.components), i != j ==> p.components[i] != p.components[j]))
 //@      && forallkey(p.reserves, k, p.reserves[k] != nil && allocated(p.reserves[k]) && p.reserves[k].Name != nil && allocated(p.reserves[k].Name) && p.reserves[k].Name.Value == k)
+//@      && (len(p.errors) == 0 ==> forall(i, 0, len(p.components), WFNode(iface(p.components[i]))))
+//@      && (len(p.errors) == 0 ==> forallkey(p.inserts, k, p.inserts[k] != nil && WFNode(iface(p.inserts[k]))))
+//@      && (len(p.errors) == 0 && p.useStmt != nil ==> WFNode(iface(p.useStmt)))
 
 //@ pred ParInv(p *Parser) = ParColl(p) && LexOK(p) && p.prefixParseFns != nil && p.infixParseFns != nil && p.inserts != nil && p.reserves != nil
 //@      && forall(t, 0, 64, p.prefixParseFns[t].fn == 0 || p.prefixParseFns[t].env == refof(p))
@@ -134,7 +137,7 @@ package parser
 //@   ensures result != nil ==> forall(i, 0, len(result.Components), result.Components[i].Block == nil)
 //@   ensures result != nil ==> forallkey(result.Reserves, k, result.Reserves[k].Name.Value == k)
 //@   ensures result != nil ==> forall(i, 0, len(result.Components), forall(j, 0, len(result.Components), i != j ==> result.Components[i] != result.Components[j]))
-//@   ensures well-formed-or-error: result != nil && len(p.errors) == 0 ==> WFNode(iface(result))
+//@   ensures well-formed-or-error: result != nil && len(p.errors) == 0 ==> ProgWF(result)
 //@   use@post wfProgramI(prog)
 //@   loop 0: invariant len(p.errors) == old(len(p.errors)) ==> forall(k, 0, len(prog.Statements), WFN(prog.Statements[k]))
 //@   modifies @PARSER
@@ -236,6 +239,9 @@ package parser
 //@   requires p.peekToken.Type == token.ELSE
 //@   decreases PD(p), 17
 //@ func (p *Parser) parseSlots
+//@   loop 0: invariant len(p.errors) == old(len(p.errors)) ==> forall(k, 0, len(slots), slots[k] != nil && slots[k].Body != nil && WFNode(iface(slots[k].Body)))
+//@   loop 1: invariant len(p.errors) == old(len(p.errors)) ==> forall(k, 0, len(slots), slots[k] != nil && slots[k].Body != nil && WFNode(iface(slots[k].Body)))
+//@   ensures well-formed-or-error: len(p.errors) == old(len(p.errors)) ==> forall(k, 0, len(result), result[k] != nil && result[k].Body != nil && WFNode(iface(result[k].Body)))
 //@   decreases PD(p), 25
 //@   loop 0: invariant ParInv(p) && PD(p) <= old(PD(p)) && len(p.errors) >= old(len(p.errors))
 //@   loop 0: invariant Grown(p, old(refof(p.errors)), old(refof(p.components)))
